@@ -110,6 +110,64 @@ def d1_recovery_bound(ctx):
                   "the reported recovery index is not the clamped vector", key="reported")
 
 
+def _in_test(fi, call):
+    """is the call (a conjunct / negation of) the test of an if / conditional expression / while?"""
+    for n in ast.walk(fi.node):
+        if isinstance(n, (ast.If, ast.IfExp, ast.While)):
+            t = n.test
+            stack = [t]
+            while stack:
+                x = stack.pop()
+                if x is call:
+                    return True
+                if isinstance(x, ast.BoolOp):
+                    stack += x.values
+                elif isinstance(x, ast.UnaryOp) and isinstance(x.op, ast.Not):
+                    stack.append(x.operand)
+    return False
+
+
+def _mask_kind(du, e, at, depth=0):
+    """'mask' for a boolean array built from comparisons, 'labels' for positions / row labels selected by one, None when unknown."""
+    if depth > 6 or e is None:
+        return None
+    if isinstance(e, ast.Compare):
+        return "mask"
+    if isinstance(e, ast.BinOp) and isinstance(e.op, (ast.BitAnd, ast.BitOr, ast.BitXor)):
+        ks = {_mask_kind(du, e.left, at, depth + 1), _mask_kind(du, e.right, at, depth + 1)}
+        return "mask" if ks == {"mask"} else None
+    if isinstance(e, ast.UnaryOp) and isinstance(e.op, (ast.Invert, ast.Not)):
+        return _mask_kind(du, e.operand, at, depth + 1)
+    if isinstance(e, ast.Call):
+        nm = call_name(e)
+        if nm in ("isnan", "isfinite", "isin", "isinf", "logical_and", "logical_or", "logical_not", "isnull", "isna", "notna", "notnull", "between"):
+            return "mask"
+        if nm in ("to_numpy", "astype", "copy", "ravel", "squeeze") and isinstance(e.func, ast.Attribute):
+            if nm == "astype" and e.args and "bool" not in src(e.args[0]):
+                return None
+            return _mask_kind(du, e.func.value, at, depth + 1)
+        if nm in ("asarray", "array") and e.args:
+            return _mask_kind(du, e.args[0], at, depth + 1)
+        if nm in ("where", "nonzero", "flatnonzero", "argwhere"):
+            return "labels"
+        return None
+    if isinstance(e, ast.Subscript):
+        # df.index[mask] / np.where(mask)[0] / arange(n)[mask]: the positions or labels the mask selects
+        b = src(e.value)
+        if b.endswith(".index") or _mask_kind(du, e.value, at, depth + 1) == "labels" or (isinstance(e.value, ast.Call) and call_name(e.value) == "arange"):
+            return "labels"
+        return None
+    if isinstance(e, ast.Attribute) and e.attr in ("values", "index"):
+        return "labels" if e.attr == "index" else _mask_kind(du, e.value, at, depth + 1)
+    if isinstance(e, ast.Name):
+        ds = du.strong_reaching(e.id, at)
+        if not ds or any(d.kind != "assign" or d.value is None or d.unpack_index is not None for d in ds):
+            return None
+        ks = {_mask_kind(du, d.value, d.stmt, depth + 1) for d in ds}
+        return ks.pop() if len(ks) == 1 else None
+    return None
+
+
 def d2_axis(ctx):
     ctx.rule("D2", "every array reduction reachable from compute_spike_features names an axis >= 1 (no reduction across waveforms)")
     repo = ctx.repo
@@ -131,6 +189,19 @@ def d2_axis(ctx):
             ax = kwarg(c, "axis")
             if ax is None and is_np and len(c.args) >= 2 and nm not in ("sort",):
                 ax = c.args[1]
+            if nm in ("any", "all") and ax is None and is_method and _in_test(fi, c):
+                # `if M.any():` - an emptiness test like `len(np.where(M)[0]) > 0` when M is a boolean mask; on anything else (row labels, index
+                # vectors) it asks whether some VALUE is non-zero
+                du_ = DefUse(fi.node)
+                kind = _mask_kind(du_, c.func.value, c)
+                if kind == "mask":
+                    ctx.ok(fi, c, c, "emptiness test of a boolean mask (is there anything to do), not a value", key=f"axis:{q.split('.')[-1]}:{norm(c)[:50]}")
+                    continue
+                if kind == "labels":
+                    ctx.violation(fi, c, c, f"`{src(c)[:60]}` asks whether some row LABEL / index is non-zero, not whether there are any: a selection that only holds row 0 "
+                                  "counts as empty, so the branch taken for a waveform depends on which other waveforms are in the batch",
+                                  key=f"axis:{q.split('.')[-1]}:{norm(c)[:50]}", name_free=True)
+                    continue
             ok, v = const_value(ax) if ax is not None else (False, None)
             ctx.check(ok and isinstance(v, int) and (v >= 1 or v == -1), fi, c, c, "reduction runs inside each waveform",
                       f"`{src(c)[:70]}` reduces over axis {v if ok else 'None (all elements)'}: a waveform's features depend on the other waveforms in the batch", key=f"axis:{q.split('.')[-1]}:{norm(c)[:50]}")
